@@ -241,6 +241,7 @@ def run(ctx: Check, tree: Tree) -> None:
         "R-FRAME: helicity frames are BoostZ(|P|/E)·RotationY(-Theta(P))·RotationZ(-Phi(P)) of the child's summed momentum; recursion uses the boosted pool",
         "R-NORMALISED: every request for angle symbols is for the helicity state (children[0] or an id normalised with is_opposite_helicity_state); from_transition swap; alignment sign",
         "R-CONVENTION: Wigner-D takes (-phi, theta, 0) of the symbols of children[0]",
+        "R-GROUPKEY: the incoherent sum over outer spin projections is complete: the grouping key separates every (particle, projection) of the outer states",
     ]
     ctx.not_decided += ["numerical invariance of the intensity under rotations", "Wigner rotations of the axis-angle alignment (matrix products of boosts)"]
     ctx.assumptions += ["qrules Topology API (get_edge_ids_*, edges) behaves as documented", "is_opposite_helicity_state is a total order on siblings (tuple comparison of attached final states)"]
@@ -248,3 +249,6 @@ def run(ctx: Check, tree: Tree) -> None:
     ctx.section(check_frame, ctx, tree)
     ctx.section(check_normalised, ctx, tree)
     ctx.section(check_convention, ctx, tree)
+    from .c02 import check_group_key
+
+    ctx.section(check_group_key, ctx, tree)
